@@ -175,6 +175,36 @@ def ripEntryJ (e : RipEntry) : J :=
 
 def noneJ : J := J.mk [("k", J.str "none")]
 
+def ndOptJ : NdOpt → J
+  | .lla t a => J.mk [("t", J.ofNat t), ("addr", J.ofBytes a)]
+  | .prefix pl on au v p pre => J.mk [("t", J.ofNat 3), ("plen", J.ofNat pl), ("onlink", J.bool on), ("auto", J.bool au),
+      ("valid", J.ofNat v), ("pref", J.ofNat p), ("prefix", J.ofBytes pre)]
+  | .mtu v => J.mk [("t", J.ofNat 5), ("mtu", J.ofNat v)]
+  | .generic t r => J.mk [("t", J.ofNat t), ("raw", J.ofBytes r)]
+
+def ndOptOfJ (j : J) : Except String NdOpt := do
+  let t ← j.nat "t"
+  if t = 1 ∨ t = 2 then pure (.lla t (← j.bytes "addr"))
+  else if t = 3 then pure (.prefix (← j.nat "plen") (← j.boolean "onlink") (← j.boolean "auto") (← j.nat "valid") (← j.nat "pref")
+    (← j.bytes "prefix"))
+  else if t = 5 then pure (.mtu (← j.nat "mtu"))
+  else pure (.generic t (← j.bytes "raw"))
+
+def ndMsgJ : NdMsg → J
+  | .rs os => J.mk [("k", J.str "nd_rs"), ("opts", J.arr (os.map ndOptJ))]
+  | .ra hop m o lt rc rt os => J.mk [("k", J.str "nd_ra"), ("hop_limit", J.ofNat hop), ("managed", J.bool m), ("other", J.bool o),
+      ("lifetime", J.ofNat lt), ("reachable", J.ofNat rc), ("retrans", J.ofNat rt), ("opts", J.arr (os.map ndOptJ))]
+  | .ns tg os => J.mk [("k", J.str "nd_ns"), ("target", J.ofBytes tg), ("opts", J.arr (os.map ndOptJ))]
+  | .na r so ov tg os => J.mk [("k", J.str "nd_na"), ("target", J.ofBytes tg), ("opts", J.arr (os.map ndOptJ)), ("router", J.bool r),
+      ("solicited", J.bool so), ("override", J.bool ov)]
+
+def dhcpJ (h : Dhcp) : J :=
+  J.mk [("k", J.str "dhcp"), ("op", J.ofNat h.op), ("htype", J.ofNat h.htype), ("hlen", J.ofNat h.hlen), ("hops", J.ofNat h.hops),
+    ("xid", J.ofNat h.xid), ("secs", J.ofNat h.secs), ("flags", J.ofNat h.flags), ("ciaddr", J.ofNat h.ciaddr),
+    ("yiaddr", J.ofNat h.yiaddr), ("siaddr", J.ofNat h.siaddr), ("giaddr", J.ofNat h.giaddr), ("chaddr", J.ofBytes (padTo 16 h.chaddr)),
+    ("sname", J.ofBytes (padTo 64 h.sname)), ("file", J.ofBytes (padTo 128 h.file)), ("magic", J.ofBytes h.magic),
+    ("options", J.arr (h.opts.map fun (c, v) => J.arr [J.ofNat c, J.ofBytes v]))]
+
 def xchainJ : XPkt → List J
   | .raw b => [J.mk [("k", J.str "bytes"), ("data", J.ofBytes b)]]
   | .nil => [noneJ]
@@ -217,6 +247,11 @@ def xchainJ : XPkt → List J
      else
        J.mk [("k", J.str "igmp"), ("vt", J.ofNat h.vt), ("mrt", J.ofNat h.mrt), ("csum", J.ofNat h.csum),
              ("addr", J.ofOptNat h.addr), ("extra", J.ofBytes h.extra)], noneJ]
+  | .nd m => [ndMsgJ m, noneJ]
+  | .toobig6 mtu n => J.mk [("k", J.str "toobig6"), ("mtu", J.ofNat mtu)] :: xchainJ n
+  | .timeex6 n => J.mk [("k", J.str "timeex6")] :: xchainJ n
+  | .unreach6 u n => J.mk [("k", J.str "unreach6"), ("unused", J.ofNat u)] :: xchainJ n
+  | .dhcp h => [dhcpJ h, noneJ]
   | .rip h => [J.mk [("k", J.str "rip"), ("command", J.ofNat h.command), ("version", J.ofNat h.version),
       ("entries", J.arr (h.entries.map ripEntryJ))], noneJ]
 
@@ -261,6 +296,26 @@ def ofChainX : List J → Except String XPkt
           | _ => pure []
         pure (.igmp ⟨vt, ← natOr j "mrt" 0, ← natOr j "csum" 0, ← j.optNat "addr", gs, ← j.bytes "extra"⟩)
       else throw "igmp carries no payload"
+    else if k = "nd_rs" ∨ k = "nd_ra" ∨ k = "nd_ns" ∨ k = "nd_na" then
+      if rest.length ≤ 1 then do
+        let os ← (← j.array "opts").mapM ndOptOfJ
+        if k = "nd_rs" then pure (.nd (.rs os))
+        else if k = "nd_ra" then
+          pure (.nd (.ra (← j.nat "hop_limit") (← j.boolean "managed") (← j.boolean "other") (← j.nat "lifetime")
+            (← j.nat "reachable") (← j.nat "retrans") os))
+        else if k = "nd_ns" then pure (.nd (.ns (← j.bytes "target") os))
+        else pure (.nd (.na (← j.boolean "router") (← j.boolean "solicited") (← j.boolean "override") (← j.bytes "target") os))
+      else throw "an NDP message carries no payload"
+    else if k = "dhcp" then
+      if rest.length ≤ 1 then do
+        let os ← (← j.array "options").mapM fun o => do
+          match ← o.asArr with
+          | [c, v] => pure (← c.asNat, ← v.asBytes)
+          | _ => throw "dhcp option must be [code, hex]"
+        pure (.dhcp ⟨← j.nat "op", ← j.nat "htype", ← j.nat "hlen", ← j.nat "hops", ← j.nat "xid", ← j.nat "secs", ← j.nat "flags",
+          ← j.nat "ciaddr", ← j.nat "yiaddr", ← j.nat "siaddr", ← j.nat "giaddr", ← j.bytes "chaddr", ← j.bytes "sname",
+          ← j.bytes "file", ← j.bytes "magic", os, []⟩)
+      else throw "dhcp carries no payload"
     else if k = "rip" then
       if rest.length ≤ 1 then do
         let es ← (← j.array "entries").mapM fun e => do
@@ -288,6 +343,9 @@ def ofChainX : List J → Except String XPkt
         pure (.gre ⟨← j.nat "type", ← natOr j "ver" 0, ← j.boolean "ssr", ← natOr j "recursion" 0,
                     ← natOr j "route_offset" 0, ← j.optNat "key", ← j.optNat "seq", cs⟩ n)
       else if k = "vxlan" then pure (.vxlan ⟨← j.optNat "vni"⟩ n)
+      else if k = "toobig6" then pure (.toobig6 (← j.nat "mtu") n)
+      else if k = "timeex6" then pure (.timeex6 n)
+      else if k = "unreach6" then pure (.unreach6 (← j.nat "unused") n)
       else
         -- one of the ten original classes: decode the single layer with the original decoder
         match ← ofChain [j, J.mk [("k", J.str "none")]] with
@@ -313,7 +371,7 @@ def hasUnmodelledX : XPkt → Option String
   | .unmodelled c _ => some c
   | .eth _ n | .vlan _ n | .arp _ n | .ipv4 _ n | .udp _ n | .tcp _ n | .icmp _ n | .echo _ n | .unreach _ n
   | .timeEx _ n | .llc _ n | .mpls _ n | .eapol _ n | .eap _ n | .ipv6 _ n | .icmp6 _ n | .echo6 _ n | .gre _ n
-  | .vxlan _ n => hasUnmodelledX n
+  | .vxlan _ n | .toobig6 _ n | .timeex6 n | .unreach6 _ n => hasUnmodelledX n
   | _ => none
 
 def toCore : XPkt → Option Pkt
